@@ -62,6 +62,7 @@ def simple_forms():
         ('iounit', ('iounit',)),
         ('comment', ('comment', 'a comment with do i = 1, n and end if in it')),
         ('k=3', ASG(k, I(3))),
+        ('call internal ext shadowing module ext', ('callshadow', B('+', q, I(1)), p)),
         ('p=ia(size(ia))', ASG(p, E('ia', FN('size', V('ia'))))),
         ('x=real(ubound(ra,1))*ra(1)', ASG(x, B('*', FN('real', FN('ubound', V('ra'), I(1))), E('ra', I(1))))),
         ('q=ib(lbound(ib,1))+size(ib)', ASG(q, B('+', E('ib', FN('lbound', V('ib'), I(1))), FN('size', V('ib'))))),
@@ -122,6 +123,9 @@ def compound_forms(body_i, body_n, body2_i=None):
         ('if-noelse-logical', [('if', [(('and', lg, C('/=', q, I(0))), body_n)], None)]),
         ('select', [('select', p, [([('val', 2)], body_n), ([('rng', None, -1)], [ASG(q, B('-', q, I(1)))]),
                                    ([('rng', 3, 5), ('val', 7)], [ASG(q, I(5))])], [ASG(q, I(9))])]),
+        ('select-default-first', [('select', p, [([('val', 2)], body_n), ([('rng', 3, 5)], [ASG(q, I(5))])], [ASG(q, I(9))], 0)]),
+        ('select-default-middle', [('select', p, [([('val', 2)], body_n), ([('rng', None, -1)], [ASG(q, B('-', q, I(1)))]),
+                                                   ([('rng', 3, 5)], [ASG(q, I(5))])], [ASG(q, I(9))], 1)]),
         ('select-nodefault', [('select', q, [([('val', 2), ('val', 3)], body_n)], None)]),
         ('where-elsewhere', [('where', [(C('>', V('ia'), I(1)), [('whole', 'ia', B('-', V('ia'), I(1)))])],
                               [('whole', 'ia', B('+', V('ia'), V('ib')))])]),
